@@ -69,15 +69,23 @@ int main(int argc, char **argv) {
     }
     if (mode == "random") {
         FILE *out = fopen(argv[4], "w"); if (!out) return 2; std::mt19937_64 rng(strtoull(argv[2], 0, 10) * 131 + 9); long count = atol(argv[3]);
-        static const char *P[5] = {"/i", "/n", "/f", "/l", "/t"}; static const int G[4] = {100, 50, 200, -100}; static const int O[3] = {0, 25, -25}; static const int C[5] = {1, 2, 3, 130, 7};
+        static const char *P[5] = {"/i", "/n", "/f", "/l", "/t"}; static const int G[4] = {100, 50, 200, -100}; static const int O[3] = {0, 25, -25}; static const int C[7] = {1, 2, 3, 130, 7, 127, 0};   // 127 and 0 are also the ids of the NRPNs (0,127) and (0,0)
         for (long i = 0; i < count; ++i) { World wd; JW ev; ev.arr(); int n = 1 + (int)(rng() % 40);
-            int sig = vg_run(20, [&] { for (int k = 0; k < n; ++k) { int r = (int)(rng() % 12); J j;
+            int sig = vg_run(20, [&] { for (int k = 0; k < n; ++k) { int r = (int)(rng() % 14); J j;
+                if (r >= 12) {   // a complete NRPN (parameter (hi, lo), value with equal halves) - where the statement speaks: no slot may be waiting while the
+                    // message is being assembled (the code would hand the half-assembled message to the learner); a learn request may arrive before the last part
+                    bool waiting = false; for (int q = 0; q < NS; ++q) if (wd.m->slots[q].learning > 0) waiting = true;
+                    if (waiting) continue;
+                    int hi = rng() % 3 ? 0 : 127, lo = rng() % 2 ? 127 : 0, v = rng() % 2 ? 127 : 0; static const int T[3] = {99, 98, 6}; int vals[3] = {hi, lo, v};
+                    for (int q = 0; q < 3; ++q) { J n = mk("nrpn"); addn(n, "type", T[q]); addn(n, "val", vals[q]); wd.step(n, ev); }
+                    if (rng() % 2) { J c = mk("create"); addn(c, "s", 1 + rng() % NS); add(c, "p", P[rng() % 5]); addb(c, "learn", true); wd.step(c, ev); }
+                    J n = mk("nrpn"); addn(n, "type", 38); addn(n, "val", v); wd.step(n, ev); continue; }
                 if (r < 3) { j = mk("create"); addn(j, "s", 1 + rng() % NS); add(j, "p", P[rng() % 5]); addb(j, "learn", rng() % 2); }
                 else if (r == 3) { j = mk("clear"); addn(j, "s", 1 + rng() % NS); }
                 else if (r == 4) { j = mk("clearsub"); addn(j, "s", 1 + rng() % NS); addn(j, "j", 1 + rng() % PS); }
                 else if (r == 5) { int s = (int)(rng() % NS), q = (int)(rng() % PS); if (!wd.m->slots[s].automations[q].used) continue; j = mk("map"); addn(j, "s", s + 1); addn(j, "j", q + 1); addn(j, "gain", G[rng() % 4]); addn(j, "offset", O[rng() % 3]); }
                 else if (r < 9) { j = mk("set"); addn(j, "s", 1 + rng() % NS); addn(j, "v", (long)(rng() % 11) - 1); }
-                else { j = mk("cc"); addn(j, "c", C[rng() % 5]); addn(j, "val", rng() % 2 ? 127 : 0); }
+                else { j = mk("cc"); addn(j, "c", C[rng() % 7]); addn(j, "val", rng() % 2 ? 127 : 0); }
                 wd.step(j, ev); } });
             ev.end_arr(); JW w; w.obj().key("ev").raw(sig ? "[]" : ev.s).knum("sig", sig).knum("asan", vg_asan_hits).kstr("asan_what", vg_asan_first).end_obj(); fprintf(out, "%s\n", w.s.c_str()); }
         fclose(out); return 0;
